@@ -389,4 +389,11 @@ def tsGet {T : Type} (nil : T) (ts : TemplateSystem T) (version : UInt16) (dom :
     | some t => .ok (t, none)
     | none => .ok (nil, some .tnf)
 
+/-! ## additions for the sFlow -> flow message conversion (SflowProdT.lean) -/
+
+/-- `DefaultEnvironment` (producer_packet.go: the `*BaseParserEnvironment` that `init()` makes with NewBaseParserEnvironment)
+    where a `PacketMapper` is wanted: never nil, and its `ParsePacket(flowMessage, data)` is
+    `ParsePacket(flowMessage, data, nil, e)`, the dissector without a configuration -/
+def DefaultEnvironment : PacketMapper := some {}
+
 end Goflow.Go
